@@ -1,16 +1,18 @@
 #!/bin/sh
 # usage: tools/seedtest.sh <patch.diff> <prop> [<prop>...]
-# Applies a seeded change to /repo, runs the given checks, prints their verdict lines, and restores /repo.
-P=$1; shift
-cd /repo || exit 2
-if [ -n "$(git status --porcelain --untracked-files=no)" ]; then echo "/repo is not clean"; exit 2; fi
-git apply "$P" 2>/dev/null || git apply -C1 --recount "$P" || { echo "patch does not apply"; exit 2; }
-trap 'git -C /repo checkout -- . ' EXIT
+# Applies a seeded change to a scratch copy of /repo's working tree (outside /repo and /verif, removed afterwards),
+# runs the given checks on it and prints their verdict lines.  /repo itself is not touched.
+P=$(readlink -f "$1"); shift
+d=/var/tmp/seed_$$; rm -rf $d
+rsync -a --exclude .git --exclude '*.o' --exclude '*.lo' --exclude .libs --exclude .deps --exclude bin /repo/ $d/; rc=$?; [ $rc -eq 0 ] || [ $rc -eq 24 ] || exit 2
+trap 'rm -rf $d' EXIT
+( cd $d && git init -q . >/dev/null 2>&1; git -C $d apply "$P" 2>/dev/null || git -C $d apply -C1 --recount "$P" ) || { echo "patch does not apply"; exit 2; }
 cd /verif
-export VERIF_EVIDENCE_DIR=/tmp/vw/seed_evidence; mkdir -p $VERIF_EVIDENCE_DIR
+export VERIF_REPO=$d VERIF_EVIDENCE_DIR=/tmp/vw/seed_evidence; mkdir -p $VERIF_EVIDENCE_DIR
 for p in "$@"; do
-  ./check $p > /tmp/vw/seedtest_$p.log 2>&1; rc=$?
-  echo "== $p exit=$rc  $(grep -c '^VIOLATION' /tmp/vw/seedtest_$p.log) violation(s)"
-  grep -A1 '^VIOLATION' /tmp/vw/seedtest_$p.log | grep -v '^VIOLATION\|^--' | cut -c1-420 | head -6
-  grep '^ANALYSIS-BROKEN' /tmp/vw/seedtest_$p.log | cut -c1-300 | head -3
+  ./check $p > /tmp/vw/seedtest_$p.$$.log 2>&1; rc=$?
+  echo "== $p exit=$rc  $(grep -c '^VIOLATION' /tmp/vw/seedtest_$p.$$.log) violation(s)"
+  grep -A1 '^VIOLATION' /tmp/vw/seedtest_$p.$$.log | grep -v '^VIOLATION\|^--' | cut -c1-420 | head -6
+  grep '^ANALYSIS-BROKEN' /tmp/vw/seedtest_$p.$$.log | cut -c1-300 | head -3
+  rm -f /tmp/vw/seedtest_$p.$$.log
 done
